@@ -359,6 +359,10 @@ func (r *run) reopen(path string) bool {
 	if r.c5 != nil {
 		r.c5.reset()
 	}
+	if r.c8 != nil {
+		// memory was rebuilt from the file: nothing differs any more
+		r.c8.lastDiff = nil
+	}
 	return true
 }
 
